@@ -140,6 +140,9 @@ pub struct ES {
     tj: Box<dyn TellHandler<MJ>>,
     aj: Box<dyn AskHandler<MJ, JoinHandle<u64>>>,
     ctl: Box<dyn ActorControl>,
+    /// typed weak reference kept only as a source for the `From<ActorWeak>` / `From<&ActorWeak>` conversions into weak
+    /// trait objects (a weak reference never keeps the actor alive - which is itself part of what C16/C07 check)
+    w: ActorWeak<SA>,
 }
 
 pub struct EW {
@@ -154,6 +157,7 @@ pub struct EW {
     tj: Box<dyn WeakTellHandler<MJ>>,
     aj: Box<dyn WeakAskHandler<MJ, JoinHandle<u64>>>,
     ctl: Box<dyn WeakActorControl>,
+    w: ActorWeak<SA>,
 }
 
 fn derive_tell<M: Send + 'static>(r: &ActorRef<SA>, sh: &Shared) -> Box<dyn TellHandler<M>>
@@ -237,6 +241,7 @@ impl ES {
             aj: derive_ask::<MJ>(&r, sh),
             tu,
             ctl,
+            w: ActorRef::downgrade(&r),
         }
     }
     pub fn ask_u(&self) -> &dyn AskHandler<MU, u64> {
@@ -255,21 +260,48 @@ impl ES {
             tj: self.tj.clone_boxed(),
             aj: self.aj.clone(),
             ctl: self.ctl.clone(),
+            w: self.w.clone(),
         }
     }
-    pub fn downgrade(&self) -> EW {
+    pub fn downgrade(&self, sh: &Shared) -> EW {
+        // each weak trait object comes either from downgrading the strong one or from one of the From conversions
+        fn wt<M: Send + 'static>(b: &dyn TellHandler<M>, w: &ActorWeak<SA>, sh: &Shared) -> Box<dyn WeakTellHandler<M>>
+        where
+            SA: Message<M>,
+        {
+            match sh.erand(3) {
+                0 => b.downgrade(),
+                1 => w.into(),
+                _ => w.clone().into(),
+            }
+        }
+        fn wa<M: Send + 'static>(b: &dyn AskHandler<M, <SA as Message<M>>::Reply>, w: &ActorWeak<SA>, sh: &Shared) -> Box<dyn WeakAskHandler<M, <SA as Message<M>>::Reply>>
+        where
+            SA: Message<M>,
+        {
+            match sh.erand(3) {
+                0 => b.downgrade(),
+                1 => w.into(),
+                _ => w.clone().into(),
+            }
+        }
         EW {
-            tu: self.tu.downgrade(),
-            au: self.au.downgrade(),
-            ts: self.ts.downgrade(),
-            as_: self.as_.downgrade(),
-            tn: self.tn.downgrade(),
-            an: self.an.downgrade(),
-            tr: self.tr.downgrade(),
-            ar: self.ar.downgrade(),
-            tj: self.tj.downgrade(),
-            aj: self.aj.downgrade(),
-            ctl: self.ctl.downgrade(),
+            tu: wt::<MU>(self.tu.as_ref(), &self.w, sh),
+            au: wa::<MU>(self.au.as_ref(), &self.w, sh),
+            ts: wt::<MS>(self.ts.as_ref(), &self.w, sh),
+            as_: wa::<MS>(self.as_.as_ref(), &self.w, sh),
+            tn: wt::<MN>(self.tn.as_ref(), &self.w, sh),
+            an: wa::<MN>(self.an.as_ref(), &self.w, sh),
+            tr: wt::<MR>(self.tr.as_ref(), &self.w, sh),
+            ar: wa::<MR>(self.ar.as_ref(), &self.w, sh),
+            tj: wt::<MJ>(self.tj.as_ref(), &self.w, sh),
+            aj: wa::<MJ>(self.aj.as_ref(), &self.w, sh),
+            ctl: match sh.erand(3) {
+                0 => self.ctl.downgrade(),
+                1 => (&self.w).into(),
+                _ => self.w.clone().into(),
+            },
+            w: self.w.clone(),
         }
     }
     fn control(&self, sh: &Shared) -> &dyn ActorControl {
@@ -312,6 +344,7 @@ impl EW {
             tj: self.tj.clone(),
             aj: self.aj.clone_boxed(),
             ctl: self.ctl.clone(),
+            w: self.w.clone(),
         }
     }
     pub fn upgrade(&self, sh: &Shared) -> Option<ES> {
@@ -358,6 +391,7 @@ impl EW {
             tj: tj?,
             aj: aj?,
             ctl: ctl?,
+            w: self.w.clone(),
         })
     }
     fn wcontrol(&self, sh: &Shared) -> &dyn WeakActorControl {
@@ -396,8 +430,7 @@ impl H {
         match self {
             H::D(r) => Wk::D(ActorRef::downgrade(r)),
             H::E(e) => {
-                let _ = sh;
-                Wk::E(Box::new(e.downgrade()))
+                Wk::E(Box::new(e.downgrade(sh)))
             }
         }
     }
